@@ -124,7 +124,7 @@ func (w *world) queryAt(th, what string, h int64) {
 		w.obs = append(w.obs, o)
 		return
 	}
-	get, _, err := w.s.view(h)
+	get, _, err := w.s.view(h, true)
 	if err != nil {
 		o.Err = firstLine(err.Error())
 	}
